@@ -56,6 +56,17 @@ pub fn make_case(seed: u64, tier: Tier, idx: u64, scope: &SmallScope) -> Case {
     if rng.chance(0.5) {
         shuffle_names(&mut model, &mut rng);
     }
+    if rng.chance(0.25) {
+        // attributes (they travel inside the validated grammar attached to a conflict error)
+        for nt in &mut model.nts {
+            for k in 0..rng.below(3) {
+                nt.attrs.push(format!("#[derive(Debug{})]", ", Clone".repeat(k)));
+            }
+        }
+        for k in 0..rng.below(3) {
+            model.term_attrs.push(format!("#[allow(unused{})]", ", dead_code".repeat(k)));
+        }
+    }
     model.start_pos = rng.below(model.nts.len() + 1);
     model.term_pos = rng.below(model.nts.len() + 1);
     let src = model.render();
